@@ -55,6 +55,29 @@ impl Runner {
     }
 }
 
+impl Runner {
+    /// Like `run`, but the value itself (`Err` carries the observation: `e:<kind>` or `P`).
+    pub fn run_val(&mut self, src: &str, binds: &[(String, CelValue)]) -> Result<CelValue, String> {
+        let o = self.run(src, binds);
+        if o.starts_with("e:") || o == "P" {
+            return Err(o);
+        }
+        // evaluate again for the value (programs are pure; `run` only keeps the wire form)
+        let ctx = match self.cache.get_mut(src) {
+            Some(Some(c)) => c,
+            _ => return Err("e:syntax".to_string()),
+        };
+        let mut b = BindContext::new();
+        for (k, v) in binds.iter() {
+            b.bind_param(k, v.clone());
+        }
+        match ctx.exec("main", &b) {
+            Ok(v) => Ok(v),
+            Err(e) => Err(format!("e:{}", crate::wire::err_kind(&e))),
+        }
+    }
+}
+
 /// The library answers sent along with a model request.
 pub struct Ext {
     entries: Vec<String>,
@@ -144,6 +167,40 @@ impl Ext {
         if let Some(r) = runner {
             let o = r.run("duration(x)", &[("x".to_string(), CelValue::String(s.to_string()))]);
             self.add("du", &[s], if o.starts_with("d:") { Some(o) } else { None });
+        }
+    }
+
+    /// Unicode case mappings of a string (Rust std).
+    pub fn case_maps(&mut self, s: &str) {
+        self.add("lo", &[s], Some(format!("s:{}", hex(s.to_lowercase().as_bytes()))));
+        self.add("up", &[s], Some(format!("s:{}", hex(s.to_uppercase().as_bytes()))));
+    }
+
+    /// The regex engine's answers for (haystack, pattern, replacement).
+    pub fn regex(&mut self, hay: &str, pat: &str, rep: &str) {
+        match regex::Regex::new(pat) {
+            Err(_) => {
+                self.add("rm", &[hay, pat], None);
+                self.add("rc", &[hay, pat], None);
+                self.add("rr1", &[hay, pat, rep], None);
+                self.add("rra", &[hay, pat, rep], None);
+            }
+            Ok(re) => {
+                self.add("rm", &[hay, pat], Some(format!("b:{}", if re.is_match(hay) { 1 } else { 0 })));
+                let caps = match re.captures(hay) {
+                    None => "n".to_string(),
+                    Some(c) => {
+                        let items: Vec<String> = c.iter().map(|g| match g {
+                            Some(m) => format!("s:{}", hex(m.as_str().as_bytes())),
+                            None => "n".to_string(),
+                        }).collect();
+                        format!("l:{}{}{}", items.len(), if items.is_empty() { "" } else { " " }, items.join(" "))
+                    }
+                };
+                self.add("rc", &[hay, pat], Some(caps));
+                self.add("rr1", &[hay, pat, rep], Some(format!("s:{}", hex(re.replace(hay, rep).as_bytes()))));
+                self.add("rra", &[hay, pat, rep], Some(format!("s:{}", hex(re.replace_all(hay, rep).as_bytes()))));
+            }
         }
     }
 
